@@ -58,6 +58,9 @@ func TestProp_Rotation(t *testing.T) {
 		wrapper := rapid.Bool().Draw(t, "storageWrapper")
 		w := vkit.NewWorld(vkit.WorldConfig{StorageWrapper: wrapper, NodeIdLoader: nodeIDLookup})
 		defer w.Close()
+		if w.NodeID != nil {
+			w.NodeID.EmptyOnMiss = rapid.Bool().Draw(t, "emptySetOnMiss")
+		}
 		records := map[string]*rec{} // by name, records present in storage
 		gone := map[string]*rec{}    // removed records (their actors still hold keys)
 		var hist []string
